@@ -205,7 +205,7 @@ CHECKS = {
                          {"ws": "harness", "bin": "sched_store", "args": ["--prop", "C20"], "timeout": 10000}],
         },
         "text": "Sequential: in every state reached by a history of <= d steps (flush is only enabled when it would not park) in which level 0 holds back ingest, running the compaction loop until idle must end the stall within 64 compactions; a state that is stalled with no selectable compaction is a deadlock witness (configuration + history). Concurrent: a writer, one flush-loop iteration that has to ingest into a level 0 at the stall threshold, and 1-2 real compaction loops (released by a stop request once writer and flush are through); loom reports any execution in which every thread is parked.",
-        "note": "sched_store --prop C20: a write the store refuses after it has taken its place in the wait list (a batch carrying a key longer than MAX_KEY_LEN) against puts, a flush-loop iteration and reads on real threads under the cooperative scheduler, every schedule up to the preemption bound: the refused call returns its error and every other call returns (a thread left blocked on the wait list with nobody to wake it is reported as a deadlock). Deadlock-freedom inside the bounds, not fair termination; thresholds from the grid rows; one store open per loom execution limits the quick tier to preemption bound 1-2. A further job runs the same oracles on a bare LsmTree fed through LsmTree::ingest with externally built SSTs (ten file shapes: single puts and tombstones, whole-range files, a 5 KiB value, two versions of a key in one file; timestamps grow with the step), compaction steps, reopen and verifier passes, from the empty tree and from four seeded states (stacked oldest levels with and without a pending level-0 file, a lower-level file whose timestamps straddle an overlapping upper-level file, before and after reopening). Where the alphabet says so (C01 C04 C08 C20) it also contains two file shapes whose timestamp range straddles earlier files and ingests that park on the level-0 stall (helper thread, completed by whichever later compaction step makes room; a parked flush F! does the same for the store subject): the interplay of a stalled writer with compactions and GCs is then part of the sequential state space. Rows I-bytes2k (max_compaction_bytes below two level-0 files) and J-stallbytes (thresholds by bytes) put the limits of the property's last sentence into the grid; the seeds full-stack-of-overlapping-files (sixteen stacked 5 KiB files: every level occupied) and time-interleaved-overlapping-files-reopened (level-0 files that cannot sink one by one) reach stalls that only a merge relieves. max_open_files is not varied: values small enough to matter (3, 4) make the file manager return explicit too-many-open-files errors from point reads, flushes and compactions, which is the documented meaning of that limit and not a wait-for cycle; the read and liveness oracles would count those errors as failures, so the option stays at its default. C! is one compaction-loop iteration that fails (its scratch directory is moved away for the duration): the loop returns the error, and afterwards a stalled level 0 must still find its relieving compaction (a failed compaction must not stay registered as ongoing).",
+        "note": "loom_kvs --prop C20 also has two harnesses in which a refused batch races one or two puts (completed without a preemption bound: 244 executions for the two-thread one; the pre-repair code deadlocks in execution #3). sched_store --prop C20: a write the store refuses after it has taken its place in the wait list (a batch carrying a key longer than MAX_KEY_LEN) against puts, a flush-loop iteration and reads on real threads under the cooperative scheduler, every schedule up to the preemption bound: the refused call returns its error and every other call returns (a thread left blocked on the wait list with nobody to wake it is reported as a deadlock). Deadlock-freedom inside the bounds, not fair termination; thresholds from the grid rows; one store open per loom execution limits the quick tier to preemption bound 1-2. A further job runs the same oracles on a bare LsmTree fed through LsmTree::ingest with externally built SSTs (ten file shapes: single puts and tombstones, whole-range files, a 5 KiB value, two versions of a key in one file; timestamps grow with the step), compaction steps, reopen and verifier passes, from the empty tree and from four seeded states (stacked oldest levels with and without a pending level-0 file, a lower-level file whose timestamps straddle an overlapping upper-level file, before and after reopening). Where the alphabet says so (C01 C04 C08 C20) it also contains two file shapes whose timestamp range straddles earlier files and ingests that park on the level-0 stall (helper thread, completed by whichever later compaction step makes room; a parked flush F! does the same for the store subject): the interplay of a stalled writer with compactions and GCs is then part of the sequential state space. Rows I-bytes2k (max_compaction_bytes below two level-0 files) and J-stallbytes (thresholds by bytes) put the limits of the property's last sentence into the grid; the seeds full-stack-of-overlapping-files (sixteen stacked 5 KiB files: every level occupied) and time-interleaved-overlapping-files-reopened (level-0 files that cannot sink one by one) reach stalls that only a merge relieves. max_open_files is not varied: values small enough to matter (3, 4) make the file manager return explicit too-many-open-files errors from point reads, flushes and compactions, which is the documented meaning of that limit and not a wait-for cycle; the read and liveness oracles would count those errors as failures, so the option stays at its default. C! is one compaction-loop iteration that fails (its scratch directory is moved away for the duration): the loop returns the error, and afterwards a stalled level 0 must still find its relieving compaction (a failed compaction must not stay registered as ongoing).",
     },
     "C14": {
         "level": "exploration",
